@@ -53,7 +53,9 @@ Definition mk_names (tbl : name_table) (stage ns : string) : names :=
 Definition oday := (Z * string * res blocks)%type.
 Record ostate := mkOState {
   os_ifaces : res (list string);
-  os_per : list (string * res (list oday) * res (list (Z * string)))
+  (* interface, query walk, merge listing, (day timestamp, directory a writer would open, directory a
+     reader's recovery falls back to) *)
+  os_per : list (string * res (list oday) * res (list (Z * string)) * list (Z * string * string))
 }.
 
 Record point := mkPoint {
@@ -65,7 +67,7 @@ Record point := mkPoint {
 }.
 
 Record case := mkCase {
-  c_dst : fs; c_src : fs; c_opts : opts; c_probe : list string; c_names : name_table;
+  c_dst : fs; c_src : fs; c_opts : opts; c_probe : list string; c_probe_ts : list Z; c_names : name_table;
   c_merge_ok : bool; c_ops : list fsop; c_before : nat; c_final : nat;
   c_points : list point; c_states : list ostate
 }.
@@ -83,8 +85,8 @@ Definition oday_le (a b : oday) : bool :=
 Definition lday_eqb (a b : Z * string) : bool := (fst a =? fst b) && String.eqb (snd a) (snd b).
 Definition lday_le (a b : Z * string) : bool := (fst a <? fst b) || ((fst a =? fst b) && String.leb (snd a) (snd b)).
 
-Definition per_eqb (a b : string * res (list oday) * res (list (Z * string))) : bool :=
-  let '(i1, w1, l1) := a in let '(i2, w2, l2) := b in
+Definition per_eqb (a b : string * res (list oday) * res (list (Z * string)) * list (Z * string * string)) : bool :=
+  let '(i1, w1, l1, _) := a in let '(i2, w2, l2, _) := b in
   String.eqb i1 i2
   && res_eqb (fun x y => list_eqb oday_eqb (sort_by oday_le x) (sort_by oday_le y)) w1 w2
   && res_eqb (fun x y => list_eqb lday_eqb (sort_by lday_le x) (sort_by lday_le y)) l1 l2.
@@ -104,7 +106,18 @@ Definition model_state (s : fs) (probe : list string) : ostate :=
         | _ => Err end,
         match list_days s i with
         | Ok ds => Ok (map (fun d => (ts_of d, snd (fst d))) ds)
-        | _ => Err end)) names).
+        | _ => Err end, [])) names).
+
+(* the prefix search of the writer / of the reader's recovery returns one of the model's candidates *)
+Definition targets_match (nm : names) (s : fs) (st : ostate) : bool :=
+  forallb (fun e =>
+    let '(i, _, _, tg) := e in
+    forallb (fun t =>
+      let '(ts, w, r) := t in
+      match prefix_matches nm s i ts with
+      | [] => String.eqb w (n_tsname nm ts) && String.eqb r ""
+      | cs => existsb (String.eqb w) cs && existsb (String.eqb r) cs
+      end) tg) (os_per st).
 
 (* ---- directory-level projection of the op list *)
 Definition op_eqb (a b : fsop) : bool :=
@@ -183,6 +196,7 @@ Definition corr (c : case) : bool :=
   && forallb (fun p =>
        let s := apply_all (c_dst c) (prefix_df (pt_d p) (pt_f p) ops) in
        ostate_eqb (model_state s (c_probe c)) (nth_state c (pt_state p))
+       && targets_match nm s (nth_state c (pt_state p))
        && plans_wf_b (c_opts c) s (c_src c)
        && Bool.eqb (negb (merge_fails (c_opts c) s (c_src c))) (pt_later_ok p)
        && ostate_eqb (model_state (apply_all s (merge_ops nm2 s (c_src c) (c_opts c))) (c_probe c))
@@ -194,8 +208,8 @@ Definition corr (c : case) : bool :=
 Definition artifact (n : string) : bool := has_prefix ".gpdb-merge-" n || contains ".gpdb-merge-backup-" n.
 
 Definition per_of (s : ostate) (i : string) : option (res (list oday) * res (list (Z * string))) :=
-  match find (fun e => String.eqb (fst (fst e)) i) (os_per s) with
-  | Some (_, w, l) => Some (w, l)
+  match find (fun e => String.eqb (fst (fst (fst e))) i) (os_per s) with
+  | Some (_, w, l, _) => Some (w, l)
   | None => None
   end.
 Definition walk_of (s : ostate) (i : string) : res (list oday) :=
@@ -213,13 +227,14 @@ Definition state_ok (before final s : ostate) : bool :=
   | Ok ifs, Ok bi, Ok fi =>
     forallb (fun n => negb (artifact n) && (existsb (String.eqb n) bi || existsb (String.eqb n) fi)) ifs
     && forallb (fun e =>
-         let '(i, w, l) := e in
+         let '(i, w, l, tg) := e in
          let wb := walk_of before i in
          let wf := walk_of final i in
          (negb (is_err w) || is_err wb)
          && (negb (is_err l) || is_err (list_of before i))
          && forallb (fun d => negb (artifact (snd (fst d)))) (days_of w)
          && forallb (fun d => negb (artifact (snd d))) (match l with Ok x => x | _ => [] end)
+         && forallb (fun t => negb (artifact (snd (fst t))) && negb (artifact (snd t))) tg
          && forallb (fun ts =>
               let v := view_of w ts in
               list_eqb oday_eqb v (view_of wb ts) || list_eqb oday_eqb v (view_of wf ts))
@@ -231,7 +246,7 @@ Definition state_ok (before final s : ostate) : bool :=
 (* a later merge yields the merged result *)
 Definition same_result (final later : ostate) : bool :=
   res_eqb (list_eqb String.eqb) (os_ifaces final) (os_ifaces later)
-  && forallb (fun e => let '(i, w, _) := e in
+  && forallb (fun e => let '(i, w, _, _) := e in
                        res_eqb (fun x y => list_eqb oday_eqb (sort_by oday_le x) (sort_by oday_le y)) w (walk_of final i))
              (os_per later).
 
